@@ -8,6 +8,8 @@ pat=${1:-}
 for d in seeded/*${pat}*/; do
   id=$(basename "$d")
   prop=${id%%-*}
+  # the check that is expected to catch it (another property's check for a few cross-property seeds)
+  m=$(python3 -c "import json,sys;print(json.load(open(sys.argv[1]))['detected_by']['check'])" "$d/meta.json" 2>/dev/null); [ -n "$m" ] && prop=$m
   patch="$PWD/${d%/}/patch.diff"
   [ -f "$patch" ] || continue
   t0=$(date +%s)
